@@ -46,7 +46,12 @@ def make_sources(scratch):
 
 def expand_crate(scratch):
     """Macro-expanded text of the crate in the baseline configuration (default features), built in scratch."""
-    tdir = os.path.join(scratch.dir, 'expand-target')
+    # dependency artefacts are kept between runs (optional cache outside /tmp); the crate itself is always re-expanded
+    tdir = '/var/tmp/rarena-verif-cache/expand-target'
+    try:
+        os.makedirs(tdir, exist_ok=True)
+    except OSError:
+        tdir = os.path.join(scratch.dir, 'expand-target')
     env = dict(os.environ, CARGO_NET_OFFLINE='true', CARGO_TARGET_DIR=tdir, RUSTFLAGS='')
     p = subprocess.run(['cargo', '+nightly', 'rustc', '-p', 'rarena-allocator', '--offline', '--lib', '--',
                         '-Zunpretty=expanded'], cwd=REPO, capture_output=True, text=True, env=env, timeout=900)
